@@ -355,6 +355,7 @@ def run(tier, seed, only=None):
     nhist = tier_n(tier, 2, 4)
     items, info = [], []
     exh_problems = []
+    exh_regular = []
     for i, rng, P in problems(seed, nprob, tier):
         if only is not None and i != only:
             continue
@@ -376,6 +377,10 @@ def run(tier, seed, only=None):
                     info.append((i, P, ref, kind, alg, cmds, tol, "random"))
         if len(exh_problems) < tier_n(tier, 2, 12) and ref.defect and n >= 6:
             exh_problems.append((i, P, ref, idx_pool, obs_pool, tol))
+        if len(exh_regular) < tier_n(tier, 2, 6) and not ref.defect:
+            # a regular problem created with a regularisation subset (all unknowns): switching the regularisation
+            # of a decomposed regular system must be a no-op
+            exh_regular.append((i, dict(P, minx=list(range(1, n + 1))), ref, idx_pool, obs_pool, tol))
     # bounded-exhaustive histories over a reduced alphabet
     depth = tier_n(tier, 2, 3)
     for i, P, ref, idx_pool, obs_pool, tol in exh_problems:
@@ -393,6 +398,18 @@ def run(tier, seed, only=None):
                             continue
                         items.append((P, ["NEW %s %s" % (kind, alg)] + with_oracle(cmds)))
                         info.append((i, P, ref, kind, alg, cmds, tol, "exhaustive"))
+    for i, P, ref, idx_pool, obs_pool, tol in exh_regular:
+        a, b = idx_pool[0], idx_pool[-1]
+        alpha = ["X", "DEF", "QXX %d %d" % (a, b), "MINXALL",
+                 "MINX %d " % ref.n + " ".join(str(k) for k in range(1, ref.n + 1)), "RESET"]
+        for alg in lsq.ALGS:
+            for L in range(1, 4):
+                for cmds in itertools.product(alpha, repeat=L):
+                    cmds = list(cmds)
+                    if not is_query(cmds[-1]):
+                        continue
+                    items.append((P, ["NEW base %s" % alg] + with_oracle(cmds)))
+                    info.append((i, P, ref, "base", alg, cmds, tol, "exhaustive"))
     res = solver.run_scripts(items, batch=30)
     found = {}
     for (i, P, ref, kind, alg, cmds, tol, mode), r in zip(info, res):
